@@ -97,6 +97,12 @@ def stepAgg (st : St) (cmd : List String) (got : String) : Option (St × Verdict
       if p < 1 || p > 256 || w > 65536 || r < 1 || r > 10000 || nz > 64 then some (skipV st got)
       else some (st, expect (digest (f ops) ++ " same=true leak=0 in=ok") got)
     | _, _, _, _, _, _ => some (skipV st got)
+  | "concagg" :: fn :: k :: w :: names =>
+    match aggFn fn, lookupAll st names, k.toNat?, w.toNat? with
+    | some f, some ops, some kk, some ww =>
+      if kk < 1 || kk > 64 || ww > 65536 || !(fn == "paror" || fn == "parand" || fn == "parheapor") then some (skipV st got)
+      else some (st, expect (digest (f ops) ++ " same=true in=ok") got)
+    | _, _, _, _ => some (skipV st got)
   | "concdec" :: k :: x :: mode =>
     match k.toNat?, st.bm[x]? with
     | some kk, some _ =>
